@@ -46,8 +46,9 @@ ASSUMPTIONS = {
     "A7": "single thread; generators advance only when driven",
     "A8": "extraction drops docstrings, annotations, __repr__ and warnings.warn(...) statements, identically on every run",
     "A9": "abstract-bytes mode (lru_trie.py level): byte strings are an uninterpreted sort with concatenation and length; only the laws listed in pyvc/smt.py:_abstract_bytes_axioms are used",
-    "A10": "lru_iter(lru) yields the stems of lru (trusted sequence contract, bounded-checked): lru_trie.py is verified over the abstract stem sequence",
+    "A10": "lru_trie.py is verified over the abstract stem sequence QS(0..QL-1), PRE(QL) = lru of the query; lru_iter and lru_dirname are verified at byte level against exactly that reading (contracts/helpers.py: LruIterSplit, LruDirnameSplit and its lemma). What remains assumed is the identification of the two views: the stems of a well-formed LRU are its separator-terminated pieces, and every stored key is such a piece (keys are only ever written from lru_iter yields)",
     "A12": "NEAR(a) (nearest webentity at or above a head) is a spec function of the current store defined by well-founded recursion on the parent pointer (parent[a] < a, invariant I2); its unfolding equation is assumed",
+    "A13": "the two regular-expression wrappers Traph.__apply_webentity_creation_rule / __apply_webentity_default_creation_rule are trusted (python's re): abstracted by the spec functions RULE_MATCHES/RULE_MATCH(anchor, lru) and DEFAULT_MATCHES/DEFAULT_MATCH(lru) of an arbitrary fixed rule configuration; the ladder Traph.__add_page is verified against them and against the contracts of add_page, rules_to_apply, __create_webentity and refresh",
     "A11": "tail blocks appended by LRUTrieNode.write land beyond the old end of the store, where no premise constrains the arrays: modelled as already present (contracts/node.py Write.apply)",
 }
 
@@ -314,6 +315,27 @@ def run_property(prop, tier, seed):
             write_replay(prop, "obligation", payload)
         violations.append(("obligation %s fails" % o["id"], path, bounded_input is not None))
 
+    # a function under contract that the executor could not read any more (changed code
+    # outside the subset) is undecided for the verifier; the plain-Python restatement of
+    # its contract (pyvc/native.py) then runs as a BOUNDED stand-in for that function:
+    # it can refute (with a concrete input), never prove
+    for u in list(undecided):
+        q = u.get("function")
+        if u.get("obligation") or not q or q == "static" or q in native_cache:
+            continue
+        try:
+            from pyvc import native
+
+            native_cache[q] = native.replay(q, REPO) if q in native.SEARCHES else None
+        except Exception:
+            native_cache[q] = None
+        if q in getattr(native, "SEARCHES", {}):
+            notes.append("bounded stand-in for the undecided function %s: native contract search (%s)" % (q, "contradiction found" if native_cache[q] else "no contradiction on the searched inputs"))
+        if native_cache[q]:
+            nat = native_cache[q]
+            path = write_replay(prop, "native", {"function": q, "obligation": "%s::contract (verifier undecided: %s); bounded native search" % (q, u.get("reason", "")[:200]), "native_replay": nat})
+            violations.append(("the real function %s contradicts its contract on %s (bounded native search; the verifier could not read the changed function)" % (q, json.dumps(nat["input"], default=str)[:160]), path, True))
+
     # evidence
     wall = now() - t0
     explanation = (
@@ -414,17 +436,21 @@ def replay(path):
 
 
 # ----------------------------------------------------------------------------- baseline
-def record_baseline():
+def record_baseline(only_fns=()):
+    """`vcheck.py baseline` records every function; `vcheck.py baseline f g` re-records
+    only f and g (the other entries of the file are kept)"""
     from pyvc.run import run_tasks
 
     tasks = {}
     for prop in P.ALL:
         for groups, fn, mode, shards, t, only in P.DEDUCTIVE.get(prop, []):
-            if t != "quick-only":
+            if t != "quick-only" and (not only_fns or fn in only_fns):
                 tasks[fn] = (groups, fn, mode, shards, "")
     res = run_tasks(list(tasks.values()), REPO, timeout_ms=30000, procs=16, max_fail=0)
     deps = dep_hashes(res)
     out = {"functions": {}, "contracts": contract_hash(), "recorded_at": time.strftime("%Y-%m-%dT%H:%M:%SZ", time.gmtime())}
+    if only_fns:
+        out["functions"] = load_json(BASELINE, {"functions": {}})["functions"]
     tot = ok = 0
     for q, r in sorted(res.items()):
         proved = sorted(o["id"] for o in r["obligations"] if o["status"] == "proved")
@@ -443,7 +469,7 @@ def main(argv):
     if len(argv) >= 2 and argv[1] == "replay":
         return replay(argv[2])
     if len(argv) >= 2 and argv[1] == "baseline":
-        return record_baseline()
+        return record_baseline(tuple(argv[2:]))
     prop = argv[1]
     tier = os.environ.get("VERIF_TIER", "quick")
     if "--tier" in argv:
